@@ -2,7 +2,7 @@
 from hypothesis import strategies as st
 
 from vf.engine import Sub, require, bitstring_module
-from vf.common import (bits_st, bits_of_len, cls_st, mcls_st, mk, attempt, is_raised, lenbucket, CLASSES, MUTABLE,
+from vf.common import (cls_of, bits_st, bits_of_len, cls_st, mcls_st, mk, attempt, is_raised, lenbucket, CLASSES, MUTABLE,
                        make_promotable, promo_ok, PROMO_KINDS, MEM_ROUTES, build_route)
 
 RULE = ("cases = (operator, class of each operand or promotable kind, contents, shift count, construction route); non-trivial = length >= 2 "
@@ -123,6 +123,16 @@ def apply_prep(x, a, how):
     return ''.join('1' if c == '0' else '0' for c in a)
 
 
+def apply_inplace(op, z, other):
+    if op == '&':
+        z &= other
+    elif op == '|':
+        z |= other
+    else:
+        z ^= other
+    return z
+
+
 def run_logic(case):
     bs = bitstring_module()
     op, a, b = case['op'], case['a'], case['b']
@@ -166,6 +176,26 @@ def run_logic(case):
         require(res.bin == exp and len(res) == len(a), f'{op} differs from the integer model', got=res.bin[:80], expected=exp[:80])
         lab = 'equal'
         nt = len(a) >= 2 and not (len(set(a)) == 1 and len(set(b)) == 1)
+        # the result is an ordinary bitstring: it can be an operand again, of any operator, next to any class
+        n_ = len(exp)
+        if n_:
+            for k_, cname in enumerate(CLASSES):
+                other_op = '&|^'[(k_ + n_) % 3]
+                mate = mk(cname, a)
+                r2 = attempt(apply, other_op, mate, res)
+                require(not is_raised(r2) and r2.bin == model_logic(other_op, a, exp), 'the result of an operator cannot be used as the right operand of another one', got=r2, cls=cname, op2=other_op)
+                r3 = attempt(apply, other_op, res, mate)
+                require(not is_raised(r3) and r3.bin == model_logic(other_op, exp, a), 'the result of an operator cannot be used as the left operand of another one', got=r3, cls=cname, op2=other_op)
+                conv = attempt(cls_of(cname), res)
+                require(not is_raised(conv) and conv.bin == exp, 'the result of an operator cannot be converted to another class', got=conv, cls=cname)
+                if cname in MUTABLE:
+                    z = mk(cname, a)
+                    rz = attempt(lambda: apply_inplace(other_op, z, res))
+                    require(not is_raised(rz) and z.bin == model_logic(other_op, a, exp), 'the result of an operator cannot be used as the operand of an in-place operator', got=rz, cls=cname, op2=other_op)
+            rr = attempt(apply, '|', res, res)
+            require(not is_raised(rr) and rr.bin == exp, 'r | r on the result of an operator failed', got=rr)
+            inv = attempt(lambda: ~res)
+            require(not is_raised(inv) and len(inv) == n_, '~ on the result of an operator failed', got=inv)
         # mutating the result must never reach a mutable operand
         if isinstance(res, bs.BitArray) and len(res):
             res.invert()
